@@ -36,14 +36,14 @@ m = {
     'setup_cmd': 'python3 tools/setup_check.py',
     'hooks': {
         'guard': 'mennanov_blockwatch_verif',
-        'enable': 'none needed: contracts live in /verif and are spliced into text extracted from /repo on every run; Kani harnesses are spliced into a scratch copy under cfg(kani)',
+        'enable': 'none needed: contracts live in /verif and are spliced into text extracted from /repo on every run; the bounded harness modules of /verif/cex are appended, as #[cfg(test)] modules, to a scratch copy of the working tree (never to /repo)',
         'baseline_off_cmd': 'cd /repo && cargo test --workspace --no-fail-fast --offline',
         'source_commits': [],
         'add_only': True,
     },
     'engines': [
         {'name': 'verus-contracts', 'path': 'tools/runner.py', 'serves_properties': sorted(claimed),
-         'kind_free_text': 'extractor (tools/extract.py) copies the real functions from /repo, splices contracts from contracts/groups/*.rs, Verus 0.2026.09.13 (Z3) discharges every obligation; Kani 0.68/CBMC on the real crate for counterexamples and bounded stand-ins'},
+         'kind_free_text': 'extractor (tools/extract.py) copies the real functions from /repo, splices contracts from contracts/groups/*.rs, Verus 0.2026.09.13 (Z3) discharges every obligation; small-scope exhaustive harnesses on the real crate (/verif/cex, cargo test in a scratch copy) supply concrete failing inputs for replay files and serve as the labelled bounded stand-in; Kani/CBMC is not used (symbolic strings are out of its practical reach here, DESIGN 2.4)'},
     ],
     'checks': checks,
     'not_applicable': nas,
